@@ -884,7 +884,11 @@ def _helper_node(f, name):
             return None
     for n in ast.walk(ast.Module(body=body, type_ignores=[])):
         if isinstance(n, (ast.Yield, ast.YieldFrom, ast.Global, ast.Nonlocal, ast.FunctionDef, ast.ClassDef,
-                          ast.Lambda, ast.AsyncFunctionDef, ast.Await, ast.Try, ast.With)):
+                          ast.Lambda, ast.AsyncFunctionDef, ast.Await, ast.Try)):
+            return None
+        # x8: a `with` block is spliced like any other statement when it binds no name (`as`) and holds no `return`
+        if isinstance(n, ast.With) and (any(i.optional_vars is not None for i in n.items)
+                                        or any(isinstance(x, ast.Return) for x in ast.walk(n))):
             return None
     for n in ast.walk(node):
         if isinstance(n, ast.Call) and isinstance(n.func, ast.Name) and n.func.id == name:
